@@ -46,6 +46,13 @@ namespace
     const char *Handle::zone_lo[2] = {nullptr, nullptr}, *Handle::zone_hi[2] = {nullptr, nullptr};
     long Handle::hits[2] = {0, 0};
     int val_of(const Handle &h) { return h.v; }
+    // an element smaller and less aligned than a machine word (sizeof 2, alignof 2)
+    struct Tiny
+    {
+        uint16_t v;
+        Tiny(int x = 0) : v((uint16_t)x) {}
+    };
+    int val_of(const Tiny &t) { return t.v; }
     template <class E> struct Watch
     {
         static void zone(int, const void *, size_t) {}
@@ -480,8 +487,13 @@ namespace
             }
             case T_PUSH:
                 if (m.size() == N) { overflow_offered = true; probe("push_when_full"); fault("input_beyond_capacity"); }
-                x->push_back((char)('A' + val % 26));
-                if (m.size() < N) m.push_back((char)('A' + val % 26));
+            {
+                // every seventh pushed character is a zero byte: a character like any other for push_back, size() and copies
+                char pc = val % 7 == 0 ? '\0' : (char)('A' + val % 26);
+                if (pc == 0) probe("zero_byte_pushed");
+                x->push_back(pc);
+                if (m.size() < N) m.push_back(pc);
+            }
                 break;
             case T_CSTR:
                 break;
@@ -531,7 +543,10 @@ namespace
             {
                 // implicit copy: a bitwise copy of a well-formed string is well-formed
                 SS c(*x);
-                if (c.size() != m.size() || memcmp(c.c_str(), m.data(), m.size()) != 0) violate("C14/string-copy", "copy differs");
+                if (c.size() != m.size() || memcmp(c.c_str(), m.data(), m.size()) != 0) violate("C14/string-copy", "a copy holds %zu characters, the original %zu; or the characters differ", c.size(), m.size());
+                SS d;
+                d = *x;
+                if (d.size() != m.size() || memcmp(d.c_str(), m.data(), m.size()) != 0) violate("C14/string-copy", "a copy-assigned string holds %zu characters, the original %zu; or the characters differ", d.size(), m.size());
                 break;
             }
             }
@@ -578,10 +593,11 @@ int main(int argc, char **argv)
     SVWorld<int> wi(PARTNAME "static_vector<int>", false);
     SVWorld<tracked::T> wt(PARTNAME "static_vector<Tracked>", true);
     SVWorld<Handle> wh(PARTNAME "static_vector<Handle>", false);
+    SVWorld<Tiny> wy(PARTNAME "static_vector<2-byte element>", false);
     SSWorld ws;
     Harness h;
     h.property = "C14";
-    h.worlds = {&wi, &wt, &ws, &wh};
+    h.worlds = {&wi, &wt, &ws, &wh, &wy};
 #ifdef C14_TWIN
     h.real = {"igris/container/std_portable.h (static_vector, static_string twins)"};
 #else
